@@ -246,6 +246,19 @@ func runC10Enumeration(c *Ctx) {
 					}
 				}
 			}
+			// which branch: the unrestricted enumeration is taken exactly when no count is required
+			isZero := hasCond(ps, func(v *Val) bool {
+				return v.K == KAtom && v.At.Op == "eq" && !v.Neg && v.At.A.String() == cnt
+			})
+			isNonZero := hasCond(ps, func(v *Val) bool {
+				return v.K == KAtom && v.At.Op == "eq" && v.Neg && v.At.A.String() == cnt
+			})
+			if len(calls) == 1 && !isZero {
+				bad = append(bad, "any five of hole cards and board are admitted although a hole-card count is required: path ["+ps.CondString()+"]")
+			}
+			if len(calls) == 2 && !isNonZero {
+				bad = append(bad, "the (hole, board) product is taken without testing the required count")
+			}
 			switch len(calls) {
 			case 1:
 				nZero++
